@@ -33,7 +33,7 @@ TECHNIQUE = "runtime monitoring: history checker over recorded read/write cycles
 
 OPTSETS = [{}, {"version": 1.2}, {"version": 2, "wrap": True}, {"fmt": "%.2f"}, {"wrap": True, "data_width": 40, "fmt": "%.3f"},
            {"mnemonics_header": True, "data_section_header": "~A"}, {"version": 1.2, "wrap": False, "len_numeric_field": -1}]
-MUTATIONS = ["none", "dup_curve", "blank_curve", "dup_param", "unit_point1in", "empty_values", "long_fields", "blank_param", "empty_step", "dup_null", "vers_1.0", "vers_2.1", "vers_3.0", "vers_1.2", "wrap_Yes", "wrap_yes", "wrap_No", "numeric_unit", "blank_param_float", "nested_bracket_units", "other_trailing_blank_lines", "date_text_curve", "no_rows"]
+MUTATIONS = ["none", "dup_curve", "blank_curve", "dup_param", "unit_point1in", "empty_values", "long_fields", "blank_param", "empty_step", "dup_null", "vers_1.0", "vers_2.1", "vers_3.0", "vers_1.2", "wrap_Yes", "wrap_yes", "wrap_No", "numeric_unit", "decimal_unit", "blank_param_float", "nested_bracket_units", "other_trailing_blank_lines", "date_text_curve", "no_rows"]
 
 LIT_BASE = """~Version
 VERS. 2.0 : CWLS LOG ASCII STANDARD - VERSION 2.0
@@ -72,6 +72,8 @@ LITERALS = {
     "dup_vers_no_rows_to_1.2": (_lit(data="", replace=[("VERS. 2.0 : CWLS LOG ASCII STANDARD - VERSION 2.0", "VERS. 2.0 : CWLS LOG ASCII STANDARD - VERSION 2.0\nVERS. 2.0 : again"), ("NULL. -999.25 : NULL VALUE", "NULL. -999.25 : NULL VALUE\nCOMP. ACME : COMPANY")]), {"version": 1.2}),
     "null_marker_of_two_tokens": (_lit(data="1.0 2.0 5\n2.0 NaN 6\n3.0 4.0 7", replace=[("NULL. -999.25 : NULL VALUE", "NULL. -999.25 -9999 : NULL VALUES")]), {}),
     "null_marker_text_with_blank": (_lit(data="1.0 2.0 5\n2.0 NaN 6\n3.0 4.0 7", replace=[("NULL. -999.25 : NULL VALUE", "NULL. NOT USED : NULL VALUE")]), {}),
+    "dup_dlm_comma": (_lit(data="1.0,2.0,abc\n2.0,3.0,def\n3.0,4.0,ghi", replace=[("WRAP. NO  : ONE LINE PER DEPTH STEP", "WRAP. NO  : ONE LINE PER DEPTH STEP\nDLM. COMMA : d\nDLM. COMMA : d again")]), {}),
+    "dup_dlm_comma_wrapped": (_lit(c1=_WIDE_C1, c2="X. : x", data="\n".join("%d.0,1,2,3,4,5,6" % i for i in (1, 2, 3)), replace=[("WRAP. NO  : ONE LINE PER DEPTH STEP", "WRAP. NO  : ONE LINE PER DEPTH STEP\nDLM. COMMA : d\nDLM. COMMA : d again")]), {"wrap": True, "data_width": 30}),
     "wrapped_hash_sample": (_lit(c1=_WIDE_C1, c2="WHAT. : text\nTAG . : tag", data="\n".join("%d.0 1 2 3 4 5 run #%d" % (i, i) for i in (1, 2, 3))), {"wrap": True}),
     "wrapped_tilde_sample": (_lit(c1=_WIDE_C1, c2="WHAT. : text\nTAG . : tag", data="\n".join("%d.0 1 2 3 4 5 run ~%d" % (i, i) for i in (1, 2, 3))), {"wrap": True}),
     "wrapped_long_token": (_lit(data="1.0 2.0 http://example.org/%s\n2.0 3.0 def\n3.0 4.0 ghi" % ("x" * 70)), {"wrap": True}),
@@ -112,6 +114,8 @@ def grid(tier):
         yield {"input": "gen", "seed": 1000 + k, "mutation": "dup_null", "opts": [1, 6][k % 2]}
     for k in range(8):
         yield {"input": "gen", "seed": 5000 + k, "mutation": "numeric_unit", "opts": k % len(OPTSETS)}
+    for k in range(8):
+        yield {"input": "gen", "seed": 5050 + k, "mutation": "decimal_unit", "opts": k % len(OPTSETS)}
     for k in range(4):
         yield {"input": "gen", "seed": 5100 + k, "mutation": "blank_param_float", "opts": [0, 1, 2, 5][k]}
     for k in range(4):
@@ -213,6 +217,11 @@ def mutate(lasio, las, mutation):
         las.params.append(lasio.HeaderItem("NUMU", "1000", 25, "digits-only unit, numeric value, widest of the section by far ............"))
         las.params.append(lasio.HeaderItem("NUMV", "10", "abc", "digits-only unit, text value"))
         las.well.append(lasio.HeaderItem("NUMW", "25", "a much longer value than any other in this section, to be the widest", "w"))
+    elif mutation == "decimal_unit":
+        # a unit that is a decimal number, on the widest line of its section (where unit and value are one blank apart)
+        las.params.append(lasio.HeaderItem("DECU", "0.5", 12345678901234567, "decimal unit, numeric value, widest of the section by far ..............."))
+        las.well.append(lasio.HeaderItem("DECW", "2.5", "a much longer value than any other in this section, to be the widest one", "w"))
+        las.well.append(lasio.HeaderItem("DECX", "8.5", 20000, "x"))
     elif mutation.startswith("wrap_"):
         # the object's own WRAP item in another spelling (write(wrap=None) decides from it, read() interprets it)
         las.version["WRAP"].value = mutation[5:]
